@@ -55,7 +55,7 @@ var propertyCanaries = map[string][]string{
 	"C04": {"STRIDE.contig", "TWIN.bounds", "NILRECV"},
 	"C05": {"OVERLAP.extent", "OVERLAP.guard", "MODSET.mat", "OVERLAP.symmetric", "TWIN.shadow"},
 	"C06": {"FACTKIND.pair", "OKFLOW.use", "OKFLOW.cond", "OKFLOW.report", "FACT.normorder", "FACT.state", "FACT.condunit", "NILRECV"},
-	"C07": {"ARGS.arms", "ARGS.strict", "WORKSIZE.querylen", "ARGS.order", "ARGS.lencheck", "ARGS.query", "MAT.order", "ASM.window", "ASM.tail", "STRIDE.len"},
+	"C07": {"ARGS.arms", "ARGS.strict", "ARGS.fullrow", "WORKSIZE.querylen", "ARGS.order", "ARGS.lencheck", "ARGS.query", "MAT.order", "ASM.window", "ASM.tail", "STRIDE.len"},
 	"C08": {"ASM.lost", "PARAMUSE.read", "ASM.window", "ASM.tail", "ASM.units", "STRIDE.extent", "SIB.guards"},
 	"C09": {"GOPROTO.scratch", "GLOBAL.write", "GOPROTO.capture", "GOPROTO.lockpair", "GOPROTO.sibling", "POOL.uaf"},
 	"C12": {"GRAPHINV.panicorder", "GRAPHINV.absent", "GRAPHINV.iterreset", "GRAPHINV.converse", "GRAPHINV.uid", "GRAPHINV.iter", "TWIN.sibstate"},
@@ -93,6 +93,7 @@ func init() {
 		{"OVERLAP.extent", "mat/shadow.go", "if off < 0 && len(a.Data) <= -off {", "if off < 0 && a.N <= -off {", func() *core.Result { return overlap.RunExtent(def) }},
 		{"ASM.lost", "internal/asm/c64/dotcunitary_amd64.s", "\tADDPS X3, SUM // SUM += X_i\n\ndotc_end:", "\tMOVAPS X3, SUM // SUM = X_i\n\ndotc_end:", func() *core.Result { return asmx.Run() }},
 		{"ASM.lost", "internal/asm/c64/dotcunitary_amd64.s", "\tCMPQ TAIL, $0 // if TAIL == 0 { return }\n\tJE   dotc_end", "\tCMPQ TAIL, $0 // if TAIL == 0 { return }\n\tJE   dotc_ret", func() *core.Result { return asmx.Run() }},
+		{"ARGS.fullrow", "blas/gonum/dgemm.go", "len(c) < (m-1)*ldc+n", "len(c) < m*ldc", func() *core.Result { return worksize.RunArms(def, core.Pkgs("./blas/gonum")) }},
 		{"WORKSIZE.min", "lapack/gonum/dgels.go", "wsize := max(1, mn+max(mn, nrhs)*nb)", "wsize := max(1, mn+mn*nb)", wsz},
 		{"WORKSIZE.querylen", "lapack/gonum/dormqr.go", "case lwork < max(1, nw) && lwork != -1:\n\t\tpanic(badLWork)", "case lwork < max(1, nw) && lwork != -1:\n\t\tpanic(badLWork)\n\tcase len(tau) != k:\n\t\tpanic(badLenTau)", wsz},
 		{"WORKSIZE.min", "lapack/gonum/dsyev.go", "lworkopt := max(1, (nb+2)*n)", "lworkopt := max(1, (nb+1)*n)", wsz},
